@@ -106,7 +106,7 @@ Section Sessions.
       | Err e => Err e
       | Ok hin =>
         match read_header hdrdec (w_maxh o) (drop (data_base o) file) with
-        | Err e => Err e
+        | Err e => Err (match e with EEof => EOther | _ => e end)   (* wrapped with %w, as in Store.resume *)
         | Ok (hroots, hver, _, _) =>
           if negb (header_matches hroots hver roots) then Err EOther else Ok (hin, hroots)
         end
